@@ -280,6 +280,13 @@ func jsonType(v reflect.Value) (string, bool) {
 	case reflect.Bool:
 		return "boolean", true
 	case reflect.String:
+		if !isJSONString(v) {
+			// A json.Number is a JSON number, not a JSON string.
+			if r, ok := jsonNumber(v); ok && r.IsInt() {
+				return "integer", true
+			}
+			return "number", true
+		}
 		return "string", true
 	case reflect.Slice, reflect.Array:
 		return "array", true
@@ -288,6 +295,16 @@ func jsonType(v reflect.Value) (string, bool) {
 	default:
 		return "", false
 	}
+}
+
+// isJSONString reports whether v is a JSON string: a Go string
+// that is not a [json.Number].
+func isJSONString(v reflect.Value) bool {
+	if v.Kind() != reflect.String {
+		return false
+	}
+	_, isNumber := v.Interface().(json.Number)
+	return !isNumber
 }
 
 func assert(cond bool, msg string) {
